@@ -323,6 +323,44 @@ Section Concrete.
                          | None => insert insert_fuel d x vnone
                          end) d ks.
 
+  (* ---- hashtable.count / Set.IsSubset / Set.IsSuperset ---- *)
+  (* the inner loops of count: every entry of the chain with e.hash == h && Equal(k, e.key),
+     as (chain, bit index i<<3 + j) *)
+  Fixpoint scan_all (m : store) (c : nat) (hk : N) (k : K) (idxs : list nat) : list addr :=
+    match idxs with
+    | [] => []
+    | i :: r =>
+        match m (c, i) with
+        | Some e => if N.eqb (ehash e) hk && eqb k (ekey e) then (c, i) :: scan_all m c hk k r
+                    else scan_all m c hk k r
+        | None => scan_all m c hk k r
+        end
+    end.
+
+  Definition mem_addr (a : addr) (l : list addr) : bool := existsb (addr_eqb a) l.
+
+  (* count returns the number of distinct elements of the sequence that are elements of ht.
+     `seen` stands for the bitsets, one per chain: bit 8*bucket+slot of chain c is address
+     (c, 8*bucket+slot).  The loop stops consuming once count == len. *)
+  Definition count (s : state) (ks : list K) : nat :=
+    if Nat.eqb (nb s) 0 then 0
+    else
+      snd (fold_left
+             (fun (acc : list addr * nat) k =>
+                if Nat.eqb (snd acc) (len s) then acc
+                else
+                  let hk := hashk k in
+                  let c := chain_of hk (nb s) in
+                  fold_left (fun (acc : list addr * nat) a =>
+                               if mem_addr a (fst acc) then acc else (a :: fst acc, S (snd acc)))
+                            (scan_all (mem s) c hk k (chain_idxs s c)) acc)
+             ks ([], 0)).
+
+  (* IsSubset: count == s.Len();  IsSuperset: Has(x) for every x, false at the first miss *)
+  Definition is_subset (s : state) (ks : list K) : bool := Nat.eqb (count s ks) (len s).
+  Definition is_superset (s : state) (ks : list K) : bool :=
+    forallb (fun x => match lookup s x with Some _ => true | None => false end) ks.
+
   (* Dict.Union: z.ht.init(x.Len()); z.ht.addAll(&x.ht); z.ht.addAll(&y.ht) *)
   Definition dict_union (s : state) (l : list (K * V)) : res state :=
     items s >>= fun xs =>
@@ -358,6 +396,8 @@ Section Concrete.
     | OSetInter ks => set_inter s ks >>= fun s' => Ok (s', ONone)
     | OSetDiff ks => clone_set s >>= fun z => delete_all z ks >>= fun s' => Ok (s', ONone)
     | OSetSymDiff ks => set_symdiff s ks >>= fun s' => Ok (s', ONone)
+    | OIsSubset ks => Ok (s, OBool (is_subset s ks))
+    | OIsSuperset ks => Ok (s, OBool (is_superset s ks))
     end.
 
   (* a history: the state after the last operation and all outputs *)
